@@ -36,7 +36,7 @@ type procCase struct {
 	CmdName    string `json:"cmd_name"`
 	Name       string `json:"plugin_name"`
 	Base       string `json:"file_base,omitempty"` // base name of the path given to NewCLIPlugin; "" = notation-<plugin_name>
-	File       string `json:"file"` // FExec FNoExec FMissing FDir
+	File       string `json:"file"`                // FExec FNoExec FMissing FDir
 	Exit       int    `json:"exit"`
 	SleepMs    int    `json:"sleep_ms"`
 	DescMs     int    `json:"desc_ms"`     // <0 none
@@ -50,6 +50,9 @@ type procCase struct {
 	Err        string `json:"stderr"`
 	ErrPA      int64  `json:"err_pad_after"`
 	BoundMs    int    `json:"bound_ms"`
+	ReqPad     int    `json:"request_pad_bytes,omitempty"`      // extra bytes in the request (pluginConfig); > 64 KiB = larger than a pipe buffer
+	NoStdin    bool   `json:"plugin_ignores_stdin,omitempty"`   // the plugin never reads its stdin
+	DescStdin  bool   `json:"descendant_holds_stdin,omitempty"` // the descendant inherits stdin too (with stdout and stderr)
 	// oracle facts
 	OutFacts string `json:"stdout_facts"`
 	ErrFacts string `json:"stderr_facts"`
@@ -71,9 +74,10 @@ func (c *procCase) base() string {
 	return "notation-" + c.Name
 }
 
-func (c *procCase) outLen() int64 { return c.OutPB + int64(len(c.Out)) + c.OutPA }
-func (c *procCase) errLen() int64 { return c.ErrPB + int64(len(c.Err)) + c.ErrPA }
-func (c *procCase) heavy() bool   { return c.outLen() > 4<<20 || c.errLen() > 4<<20 }
+func (c *procCase) outLen() int64  { return c.OutPB + int64(len(c.Out)) + c.OutPA }
+func (c *procCase) errLen() int64  { return c.ErrPB + int64(len(c.Err)) + c.ErrPA }
+func (c *procCase) heavy() bool    { return c.outLen() > 4<<20 || c.errLen() > 4<<20 }
+func (c *procCase) reqLarge() bool { return c.ReqPad > 64*1024 }
 func (c *procCase) slow() bool {
 	return c.SleepMs >= 500 || c.DescMs >= 500
 }
@@ -174,7 +178,8 @@ func (c *procCase) inputTerm() string {
 		return CSome(CN(int64(v)))
 	}
 	return CApp("mk_pinput", cmdNames[c.Cmd], CStr(c.Name), CStr(c.base()), c.File, CN(int64(c.Exit)), CN(int64(c.SleepMs)),
-		opt(c.DescMs), opt(c.DeadlineMs), CN(c.outLen()), outTerm, CN(c.errLen()), errTerm, CN(int64(c.BoundMs)))
+		opt(c.DescMs), opt(c.DeadlineMs), CN(c.outLen()), outTerm, CN(c.errLen()), errTerm, CN(int64(c.BoundMs)),
+		CBool(c.reqLarge()), CBool(!c.NoStdin), CBool(c.DescStdin && c.DescMs >= 0))
 }
 
 func (c *procCase) setBound() {
@@ -246,7 +251,8 @@ func (c *procCase) install(dir string) string {
 			}
 		}
 		sp, _ := json.Marshal(stubSpec{Exit: c.Exit, SleepMs: c.SleepMs, DescMs: c.DescMs, IgnSigpipe: c.IgnSigpipe,
-			OutPB: c.OutPB, OutPA: c.OutPA, ErrPB: c.ErrPB, ErrPA: c.ErrPA})
+			OutPB: c.OutPB, OutPA: c.OutPA, ErrPB: c.ErrPB, ErrPA: c.ErrPA,
+			NoStdin: c.NoStdin, DescStdin: c.DescStdin})
 		writeFileOrPanic(filepath.Join(dir, "spec.json"), sp, 0o644)
 		writeFileOrPanic(filepath.Join(dir, "out.bin"), []byte(c.Out), 0o644)
 		writeFileOrPanic(filepath.Join(dir, "err.bin"), []byte(c.Err), 0o644)
@@ -285,6 +291,7 @@ func (c *procCase) invoke(p *nplugin.CLIPlugin, dir, path string) *nplugin.CLIPl
 	}
 	defer cancel()
 	var err, nerr error
+	late, abandoned := false, false
 	if p == nil {
 		p, nerr = nplugin.NewCLIPlugin(ctx, c.Name, path)
 	}
@@ -292,7 +299,12 @@ func (c *procCase) invoke(p *nplugin.CLIPlugin, dir, path string) *nplugin.CLIPl
 		c.Result, c.resTerm = "RNew", "RNew"
 		p = nil
 	} else {
-		func() {
+		// the call runs under a watchdog: when it has not returned by the bound, the
+		// descendant (which may be what it is blocked on) is killed; when that does not
+		// bring it back either, the case is reported with the call abandoned
+		finished := make(chan struct{})
+		go func() {
+			defer close(finished)
 			defer func() {
 				if r := recover(); r != nil {
 					err = fmt.Errorf("panic: %v", r)
@@ -300,11 +312,30 @@ func (c *procCase) invoke(p *nplugin.CLIPlugin, dir, path string) *nplugin.CLIPl
 			}()
 			err = c.call(ctx, p)
 		}()
-		c.Result, c.resTerm = classify(err)
+		limit := time.Duration(c.BoundMs)*time.Millisecond + 300*time.Millisecond
+		select {
+		case <-finished:
+		case <-time.After(time.Until(start.Add(limit))):
+			late = true
+			killDescendant(dir)
+			cancel()
+			select {
+			case <-finished:
+				c.Note = fmt.Sprintf("still blocked at the bound (%d ms); returned after %d ms, once the watchdog had killed the descendant", c.BoundMs, time.Since(start).Milliseconds())
+			case <-time.After(20 * time.Second):
+				abandoned = true
+				c.Note = fmt.Sprintf("still blocked at the bound (%d ms) and 20 s after the watchdog had killed the descendant and cancelled the context: call abandoned", c.BoundMs)
+			}
+		}
+		if abandoned {
+			c.Result, c.resTerm = "ROther: call never returned", "ROther"
+		} else {
+			c.Result, c.resTerm = classify(err)
+		}
 	}
 	elapsed := time.Since(start)
-	c.InTime = elapsed <= time.Duration(c.BoundMs)*time.Millisecond
-	if !c.InTime {
+	c.InTime = !late && elapsed <= time.Duration(c.BoundMs)*time.Millisecond
+	if !c.InTime && c.Note == "" {
 		c.Note = fmt.Sprintf("returned after %d ms", elapsed.Milliseconds())
 	}
 	if b, e := os.ReadFile(filepath.Join(dir, "argv")); e == nil {
@@ -312,27 +343,40 @@ func (c *procCase) invoke(p *nplugin.CLIPlugin, dir, path string) *nplugin.CLIPl
 	} else {
 		c.Argv = "<none>"
 	}
-	if b, e := os.ReadFile(filepath.Join(dir, "desc.pid")); e == nil {
-		if pid, e2 := strconv.Atoi(string(bytes.TrimSpace(b))); e2 == nil && pid > 1 {
-			syscall.Kill(pid, syscall.SIGKILL)
-		}
+	killDescendant(dir)
+	if abandoned {
+		return nil
 	}
 	return p
 }
 
+// killDescendant kills the descendant the stub left behind (its own process group).
+func killDescendant(dir string) {
+	if b, e := os.ReadFile(filepath.Join(dir, "desc.pid")); e == nil {
+		if pid, e2 := strconv.Atoi(string(bytes.TrimSpace(b))); e2 == nil && pid > 1 {
+			syscall.Kill(-pid, syscall.SIGKILL)
+			syscall.Kill(pid, syscall.SIGKILL)
+		}
+	}
+}
+
 func (c *procCase) call(ctx context.Context, p *nplugin.CLIPlugin) (err error) {
 	{
+		var pc map[string]string // the size of the request is set through pluginConfig (every request type has it)
+		if c.ReqPad > 0 {
+			pc = map[string]string{"pad": strings.Repeat("r", c.ReqPad)}
+		}
 		switch c.Cmd {
 		case 0:
-			_, err = p.GetMetadata(ctx, &fw.GetMetadataRequest{})
+			_, err = p.GetMetadata(ctx, &fw.GetMetadataRequest{PluginConfig: pc})
 		case 1:
-			_, err = p.DescribeKey(ctx, &fw.DescribeKeyRequest{KeyID: "k"})
+			_, err = p.DescribeKey(ctx, &fw.DescribeKeyRequest{KeyID: "k", PluginConfig: pc})
 		case 2:
-			_, err = p.GenerateSignature(ctx, &fw.GenerateSignatureRequest{KeyID: "k", KeySpec: fw.KeySpecEC256, Hash: fw.HashAlgorithmSHA256, Payload: []byte("p")})
+			_, err = p.GenerateSignature(ctx, &fw.GenerateSignatureRequest{KeyID: "k", KeySpec: fw.KeySpecEC256, Hash: fw.HashAlgorithmSHA256, Payload: []byte("p"), PluginConfig: pc})
 		case 3:
-			_, err = p.GenerateEnvelope(ctx, &fw.GenerateEnvelopeRequest{KeyID: "k", PayloadType: "application/vnd.cncf.notary.payload.v1+json", SignatureEnvelopeType: "application/jose+json", Payload: []byte("p")})
+			_, err = p.GenerateEnvelope(ctx, &fw.GenerateEnvelopeRequest{KeyID: "k", PayloadType: "application/vnd.cncf.notary.payload.v1+json", SignatureEnvelopeType: "application/jose+json", Payload: []byte("p"), PluginConfig: pc})
 		case 4:
-			_, err = p.VerifySignature(ctx, &fw.VerifySignatureRequest{})
+			_, err = p.VerifySignature(ctx, &fw.VerifySignatureRequest{PluginConfig: pc})
 		}
 	}
 	return err
